@@ -57,7 +57,7 @@ def rule_r1_r3_r4(ctx: Ctx) -> None:
     ctx.rule("C19.R1", "the namespace reader reads exactly the dependency closure of the targets; the resolver reads only the definition selected by name and version; text is loaded only while the definition itself is read", min_instances=3)
     ctx.rule("C19.R3", "direct / transitive results and the arguments of the cross-definition checks consist of types produced by reads, nothing else", min_instances=2)
     ctx.rule("C19.R4", "the user's print handler receives exactly the output of the definitions that are read", min_instances=1)
-    nsr = ctx.func("_namespace_reader._read_definitions")
+    nsr = ctx.func("_namespace_reader.read_definitions")
     bad1, bad3, bad4 = [], [], []
     for tnames in (["A"], ["A", "X"], ["X"], ["B", "A"]):
         w, d = _world(prints=True)
